@@ -480,6 +480,29 @@ func c20Concurrent(run *ev.Run, id uint64, model porcupine.Model) {
 		ops = append(ops, porcupine.Operation{ClientId: 3, Input: c20In{"observe", k}, Call: c, Output: ctx.Err() != nil, Return: now()})
 	}
 	ctxMu.Unlock()
+	// finish(k) cancels several contexts one after the other (top first): it is not atomic for an observer that
+	// reads ctx.Err() without the stack's lock, and the property does not ask for that. Observations that overlap
+	// a finish in real time are therefore dropped (counted); all others must linearize.
+	{
+		var kept []porcupine.Operation
+		for _, o := range ops {
+			drop := false
+			if o.Input.(c20In).Kind == "observe" {
+				for _, f := range ops {
+					if f.Input.(c20In).Kind == "finish" && o.Call < f.Return && f.Call < o.Return {
+						drop = true
+						break
+					}
+				}
+			}
+			if drop {
+				run.Count("conc:observations-overlapping-a-finish (dropped)", 1)
+			} else {
+				kept = append(kept, o)
+			}
+		}
+		ops = kept
+	}
 	run.Count("conc:operations", int64(len(ops)))
 	res, info := porcupine.CheckOperationsVerbose(model, ops, 30*time.Second)
 	_ = info
